@@ -1202,6 +1202,12 @@ func (db *DB) Repair(of Object) (err error) {
 		return
 	}
 
+	// pending writes have to reach the disk first, an object which is
+	// only pending would be taken for an entry whose file is gone
+	if err = db.flushAll(of); err != nil {
+		return
+	}
+
 	// we re-index missing objects in index
 	if uuids, err = uuidsFromDir(dir); err != nil {
 		return
